@@ -30,10 +30,16 @@ type cutReader struct {
 	chunk    int
 	err      error // error signalled at the cut
 	withData bool  // signalled together with the last data
+	once     bool  // the failure is reported once; later calls report a plain end of stream
+	told     bool
 }
 
 func (r *cutReader) Read(p []byte) (int, error) {
 	if r.pos >= r.c {
+		if r.once && r.told {
+			return 0, io.EOF
+		}
+		r.told = true
 		return 0, r.err
 	}
 	n := min(len(p), r.c-r.pos)
@@ -43,6 +49,7 @@ func (r *cutReader) Read(p []byte) (int, error) {
 	copy(p, r.data[r.pos:r.pos+n])
 	r.pos += n
 	if r.pos == r.c && r.withData {
+		r.told = true
 		return n, r.err
 	}
 	return n, nil
@@ -212,6 +219,8 @@ func (ctx *c10Ctx) checkCut(c, mode int, opts *stack.Opts) (kfcut bool, err erro
 	case 3:
 		r.err, r.withData = errInjected, true
 	}
+	// some transports report a failure once and then a plain end of stream
+	r.once = mode >= 2 && c%5 < 2
 	inj := errInjected
 	if mode >= 2 && c%3 == 1 {
 		inj = errWrapsEOF
